@@ -355,6 +355,41 @@ func ruleGLB3(p *Program) *RuleResult {
 						continue
 					}
 					name := sc.RelString(nil)
+					// time.Unix/UnixMilli/UnixMicro build a value in the process-local zone: every use of
+					// the result must be a re-zoning (.In/.UTC) or a zone-independent query
+					if name == "time.Unix" || name == "time.UnixMilli" || name == "time.UnixMicro" {
+						r.count("clock_zone_calls", 1)
+						key := short(fn) + "|" + name
+						v, isVal := ins.(ssa.Value)
+						okUse := isVal && v.Referrers() != nil
+						nuse := 0
+						if okUse {
+							for _, ref := range *v.Referrers() {
+								if _, dbg := ref.(*ssa.DebugRef); dbg {
+									continue
+								}
+								nuse++
+								c2, ok := ref.(*ssa.Call)
+								if !ok || c2.Common().StaticCallee() == nil || len(c2.Common().Args) == 0 || c2.Common().Args[0] != v {
+									okUse = false
+									continue
+								}
+								switch c2.Common().StaticCallee().RelString(nil) {
+								case "(time.Time).In", "(time.Time).UTC", "(time.Time).Unix", "(time.Time).UnixMilli", "(time.Time).UnixMicro", "(time.Time).UnixNano",
+									"(time.Time).Sub", "(time.Time).Equal", "(time.Time).Before", "(time.Time).After", "(time.Time).IsZero":
+								default:
+									okUse = false
+								}
+							}
+						}
+						if okUse && nuse > 0 {
+							r.ok(key, name+" in "+short(fn)+" is re-zoned before any zone-dependent use", p.instrPos(ins), "every use of the process-local value is In()/UTC() or a zone-independent query", true)
+						} else {
+							r.bad(key, name+" in "+short(fn)+" yields a value in the process-local zone that is used without In()/UTC()", p.instrPos(ins),
+								"rendering or calendar fields of the value depend on the process time zone: evaluation must be a function of expression, inputs and options only")
+						}
+						continue
+					}
 					what, bad := forbiddenCalls[name]
 					if !bad && (fnPkgPath(sc) == "math/rand" || fnPkgPath(sc) == "math/rand/v2" || fnPkgPath(sc) == "crypto/rand") {
 						what, bad = "randomness", true
